@@ -721,7 +721,7 @@ func checkC10(c *Ctx) {
 	c.importFrom(checkC07, "C10.4", "C07.4", "C07.5")
 	c.importFrom(checkC08, "C10.4", "C08.1")
 	c.importFrom(checkC09, "C10.4", "C09.1", "C09.7")
-	c.importFrom(checkC11, "C10.4", "C11.2")
+	c.importFrom(checkC11, "C10.4", "C11.2", "C11.4")
 }
 
 // c10Panics lists explicit panics and single-result type assertions reachable from
